@@ -437,7 +437,51 @@ def teardown_reaches_all(ctx, rule):
         ctx.ok('every feasible path of the tear-down visits all modules (the only early exits are the application error and a provably dead check)', f.where())
 
 
+def r7_failure_changes_nothing_else(ctx):
+    """healthy modules are served as if the faulty one had merely fallen silent: (a) the start-up schedule does not depend on whether
+    some module has failed already (no branch of SimLifecycle::at_sim_start reads the collected errors); (b) in a module's own entry
+    points nothing of the module runs between the harnessed callback and the consumption of its outcome (catch = deactivate first):
+    the processing stack's event_end of a panicked module would otherwise still run - and send - while the module counts as active"""
+    ctx.set_rule('C13.R7')
+    P = ctx.P
+    f = P.fns.get('<des::net::runtime::SimLifecycle as des::runtime::event::types::EventLifecycle>::at_sim_start')
+    if f is None:
+        ctx.violation('anchor:at_sim_start', 'unresolved-anchor SimLifecycle::at_sim_start')
+    else:
+        ctx.touch(f)
+        n = 0
+        for g in [f] + P.closures_of(f):
+            for b in sorted(g.reachable()):
+                t = g.term(b)
+                if t['k'] != 'switch':
+                    continue
+                n += 1
+                cond = g.expr_operand(t['d'], b, 'T')
+                dep = any(x[0] == 'field' and x[2] == 'error' for x in walk(cond))
+                ctx.check(not dep, 'startup-independent-of-failures', 'no decision of the start-up schedule depends on the errors collected so far', g.where(b), show(cond)[:120])
+        ctx.floor('decisions in SimLifecycle::at_sim_start', n, 2)
+    for k in CONSUMER:
+        g = P.fns.get(k)
+        if g is None:
+            continue
+        ctx.touch(g)
+        for path, outcome, decs in fn_paths(ctx, g):
+            if outcome != 'return':
+                continue
+            effs = path_effects(g, path)
+            ex = [i for i, e in enumerate(effs) if e[0] == 'c' and e[1].name == H + '::exec']
+            co = [i for i, e in enumerate(effs) if e[0] == 'c' and e[1].name in (H + '::catch', H + '::pass')]
+            for i in ex:
+                nxt = [j for j in co if j > i]
+                if not nxt:
+                    continue
+                between = [e[1].name for e in effs[i + 1:nxt[0]] if e[0] == 'c' and e[1].name.startswith(('des::net::processing::', 'des::net::runtime::ctx::', 'des::net::module::'))]
+                ctx.check(not between, 'outcome-consumed-first:%s' % k.split('::')[-1],
+                          "the outcome of the harnessed callback is consumed (a panicking module deactivated) before anything else of the module runs", g.where_path(path), between[:3])
+
+
 def run(ctx):
+    r7_failure_changes_nothing_else(ctx)
     r6_consumers_and_teardown(ctx)
     r1_harness_coverage(ctx)
     r2_harness(ctx)
